@@ -1,5 +1,6 @@
 import Driver.C12Mon
 import OidcModel.Generated.Codec
+import OidcModel.Generated.CodecWrap
 open Kv Drv Codec
 
 /-
@@ -72,6 +73,93 @@ def docReencode (l : Line) (o : Cdc.Oracles) (loc : Option Cdc.Locale) : Go.R Ob
       | .ok _ => .error "not-one-document"
       | .error e => .error e
 
+
+/-! ### the JSON wrapper methods (Generated/CodecWrap.lean, namespace GenCodecW): kinds `wenc` / `wdec` -/
+
+def wMarshalOf (ty : String) : Option (Int → Cdc.Oracles → Cdw.ClaimsVal → Go.R (List Obj)) :=
+  match ty with
+  | "AccessTokenClaims" => some GenCodecW.AccessTokenClaimsMarshalJSON
+  | "IDTokenClaims" => some GenCodecW.IDTokenClaimsMarshalJSON
+  | "ActorClaims" => some GenCodecW.ActorClaimsMarshalJSON
+  | "JWTProfileAssertionClaims" => some GenCodecW.JWTProfileAssertionClaimsMarshalJSON
+  | "LogoutTokenClaims" => some GenCodecW.LogoutTokenClaimsMarshalJSON
+  | "UserInfo" => some GenCodecW.UserInfoMarshalJSON
+  | _ => none
+
+def wUnmarshalOf (ty : String) : Option (Int → Cdc.Oracles → Cdw.ClaimsVal → String → Go.R Unit) :=
+  match ty with
+  | "AccessTokenClaims" => some GenCodecW.AccessTokenClaimsUnmarshalJSON
+  | "IDTokenClaims" => some GenCodecW.IDTokenClaimsUnmarshalJSON
+  | "ActorClaims" => some GenCodecW.ActorClaimsUnmarshalJSON
+  | "JWTProfileAssertionClaims" => some GenCodecW.JWTProfileAssertionClaimsUnmarshalJSON
+  | "LogoutTokenClaims" => some GenCodecW.LogoutTokenClaimsUnmarshalJSON
+  | "UserInfo" => some GenCodecW.UserInfoUnmarshalJSON
+  | _ => none
+
+def wOracles (l : Line) : Cdc.Oracles :=
+  { mapEncodable := fun _ => true,
+    marshalString := fun s => if s == str l "user" then .ok (str l "user.j") else if s == str l "pref" then .ok (str l "pref.j") else .error "not-on-line",
+    parseObj := fun _ => .ok (obj l "doc"),
+    -- encoding/json's reflection into the typed struct: the answer observed on this line
+    decodeAlias := fun _ _ => if str l "obs" == "ok" then .ok { enc := .ok (obj l "o.reg2") } else .error "json" }
+
+def wEncModel (l : Line) : String × Bool :=
+  let o := wOracles l
+  let reg := obj l "reg"
+  let custom := obj l "custom"
+  let ok := str l "obs" == "ok"
+  match str l "type" with
+  | "IntrospectionResponse" =>
+    let rest := reg.filter fun kv => kv.1 != "username" && kv.1 != "preferred_username"
+    let i : Cdw.IntroVal := { Username := str l "user", PreferredUsername := str l "pref", rest := .ok rest, Claims := custom }
+    let (i', res) := GenCodecW.IntrospectionResponseMarshalJSON 0 o i
+    (match res with
+    | .ok [m] => ("obj", ok && C12.sameMap m (obj l "o.obj") && i'.Username == str l "o.user" && C12.sameMap i'.Claims (obj l "o.custom2"))
+    | _ => ("err", !ok))
+  | "JWTTokenRequest" =>
+    let j : Cdw.JwtReq := { alias := { enc := .ok reg }, priv := custom }
+    let (j', res) := GenCodecW.JWTTokenRequestMarshalJSON 0 o j
+    (match res with
+    | .ok m => ("obj", ok && C12.sameMap m (obj l "o.obj") && C12.sameMap j'.priv (obj l "o.custom2"))
+    | .error _ => ("err", !ok))
+  | ty =>
+    match wMarshalOf ty with
+    | none => ("?" ++ ty, false)
+    | some f =>
+      match f 0 o { alias := { enc := .ok reg }, Claims := custom } with
+      | .ok [m] => ("obj", ok && C12.sameMap m (obj l "o.obj") && C12.sameMap custom (obj l "o.custom2"))
+      | _ => ("err", !ok)
+
+def wDecModel (l : Line) : String × Bool :=
+  let o := wOracles l
+  let ok := str l "obs" == "ok"
+  let ty := str l "type"
+  -- the registered names the harness read off the struct by reflection are the regenerated table
+  let names := list l "names"
+  let namesAgree := names.length == (GenCodecW.regNames ty).length && names.all (GenCodecW.regNames ty).contains && (GenCodecW.regNames ty).all names.contains
+  let expectCustom := Cdw.storeOver (obj l "doc") (obj l "custom0")
+  match ty with
+  | "JWTTokenRequest" =>
+    let j : Cdw.JwtReq := { alias := { enc := .ok (obj l "reg0") }, priv := obj l "custom0" }
+    (match GenCodecW.JWTTokenRequestUnmarshalJSON 0 o j "" with
+    | .ok j' => ("ok", ok && namesAgree && C12.sameMap j'.priv (obj l "o.custom2"))
+    | .error _ => ("err", !ok && namesAgree))
+  | _ =>
+    let f? := if ty == "IntrospectionResponse" then
+        some (fun now o (v : Cdw.ClaimsVal) data => GenCodecW.IntrospectionResponseUnmarshalJSON now o { Claims := v.Claims } data)
+      else wUnmarshalOf ty
+    match f? with
+    | none => ("?" ++ ty, false)
+    | some f =>
+      let v0 : Cdw.ClaimsVal := { alias := { enc := .ok (obj l "reg0") }, Claims := obj l "custom0" }
+      -- the status oracle of the destinations: what storing into them does on this line
+      let st (failing : Option Nat) : Cdc.Oracles := { o with unmarshalInto := fun _ d => if some d == failing then .error "json" else .ok () }
+      let visitsBoth := (f 0 (st (some 0)) v0 "").isOk == false && (f 0 (st (some 1)) v0 "").isOk == false && (f 0 (st (some 2)) v0 "").isOk
+      let status := f 0 (st (if ok then none else some 0)) v0 ""
+      let (v2, _) := Cdw.ClaimsVal.storeAll o "" v0 [0, 1]
+      if ok then ("ok", status.isOk && visitsBoth && namesAgree && C12.sameMap v2.Claims (obj l "o.custom2") && C12.sameMap expectCustom (obj l "o.custom2"))
+      else ("err", !status.isOk && visitsBoth && namesAgree)
+
 def modelFull (l : Line) : String × Bool :=
   let o := oraclesOf l
   match str l "kind" with
@@ -107,6 +195,8 @@ def modelFull (l : Line) : String × Bool :=
   | "unseal" =>
     let m := GenCodec.DecryptAES 0 o (str l "enc").toList []
     (showOutR m, outR m == outOfLine l (bytesOf l "o.plain"))
+  | "wenc" => wEncModel l
+  | "wdec" => wDecModel l
   | "marshal" =>
     match (GenCodec.mergeAndMarshalClaims 0 o { enc := .ok (obj l "reg") } (obj l "custom")).2 with
     | .ok [m] => ("obj", (str l "obs" == "ok" || str l "obs" == "decode-refused") && C12.sameMap m (obj l "o.obj"))
